@@ -9,8 +9,8 @@ import (
 
 func init() {
 	register(&propDef{
-		ID: "C13", Level: "other", Run: withShared(runC13, share{"C01", runC01, chipMoverInvariant}, share{"C12", runC12, ruleIs("wager-monotone")}, share{"C11", runC11, ruleIs("pay-facts")}),
-		Explanation: "The per-seat blind payment is extracted as a decision table and compared on a grid with: pay the big blind iff BB > 0 and the seat holds bb, else the small blind iff SB > 0 and it holds sb, else the dealer blind iff Dealer > 0 and it holds dealer, else nothing — each capped by the stack and paid through the chip mover as a wager; the table layer waits on exactly the seats the engine charges; the blinds wait point is bypassed only when every blind field is zero; the ante is paid as a non-wager by every player and swept into the pot (pots published, player and round status reset) before preflop; the minimum raise after the blinds is the big blind (dealer blind if none) and the minimum bet the larger of dealer blind and big blind.",
+		ID: "C13", Level: "other", Run: withShared(runC13, share{"C01", runC01, chipMoverInvariant}, share{"C12", runC12, ruleIs("wager-monotone")}, share{"C11", runC11, ruleIs("pay-facts")}, share{"C07", runC07, ruleIs("load-is-identity")}),
+		Explanation: "The per-seat blind payment is extracted as a decision table and compared on a grid with: pay the big blind iff BB > 0 and the seat holds bb, else the small blind iff SB > 0 and it holds sb, else the dealer blind iff Dealer > 0 and it holds dealer, else nothing — each capped by the stack and paid through the chip mover as a wager; the table layer waits on exactly the seats the engine charges; the blinds wait point is bypassed only when every blind field is zero; the ante is paid as a non-wager by every player and swept into the pot (pots published, player and round status reset) before preflop; the minimum raise after the blinds is the big blind (dealer blind if none) and the minimum bet the larger of dealer blind and big blind; the list those per-player loops range over (GetPlayers) holds every seat exactly once from the dealer on (shape rule: wrapping cursor over the player count, two segments with one split point, or modulo index).",
 		Trusted:     commonTrusted,
 		Assumptions: []string{"grid 0..3 for blind sizes and the stack; all eight position combinations"},
 		NotCovered:  "cap arithmetic at the boundaries as values beyond the grid; that positions are assigned to the right seats (C08)",
